@@ -3,11 +3,13 @@ package props
 // C04 — concurrent logging delivers every entry exactly once as an intact line.
 
 import (
-	"regexp"
 	"bytes"
+	"context"
 	"fmt"
 	"log"
+	"log/slog"
 	"os"
+	"regexp"
 	"runtime"
 	"strconv"
 	"strings"
@@ -17,6 +19,7 @@ import (
 	"time"
 
 	"go.uber.org/zap"
+	"go.uber.org/zap/exp/zapslog"
 	"go.uber.org/zap/zapcore"
 	"go.uber.org/zap/zapio"
 	"pgregory.net/rapid"
@@ -70,7 +73,13 @@ type c04Program struct {
 	Scripts  [][]c04Op `json:"goroutines"`
 }
 
-var c04Fronts = []string{"info", "log", "check", "sugarw", "sugarf", "sugarln", "sugar", "child-with", "child-named", "child-lazy", "stdlog", "zapio",
+var c04Cancelled = func() context.Context {
+	ctx, cancel := context.WithCancel(context.Background())
+	cancel()
+	return ctx
+}()
+
+var c04Fronts = []string{"info", "log", "check", "sugarw", "sugarf", "sugarln", "sugar", "child-with", "child-named", "child-lazy", "stdlog", "zapio", "slog", "slog-cancelled", "slog-group",
 	"reflect", "reflect", "errors", "object", "child-reflect", "shared-reflect", "shared-reflect", "reflect-fail", "reflect-fail", "errors", "errors-fault"}
 
 // every caller annotation in a C04 program is "<dir>/<file>.go:<line>" of the harness, zap or the standard library
@@ -288,6 +297,7 @@ func c04Run(t interface{ Fatalf(string, ...any) }, p *c04Program) (alternations 
 			sg := mine.Sugar()
 			std := zap.NewStdLog(mine)
 			zw := &zapio.Writer{Log: mine, Level: zapcore.WarnLevel}
+			sl := slog.New(zapslog.NewHandler(mine.Core(), zapslog.WithName(fmt.Sprintf("g%d", g)), zapslog.WithCaller(true)))
 			seq := 0
 			for _, o := range p.Scripts[g] {
 				tok := c04Token(g, seq, o.Pad)
@@ -338,6 +348,13 @@ func c04Run(t interface{ Fatalf(string, ...any) }, p *c04Program) (alternations 
 					mine.Info(tok, zap.Object("obj", c04Obj{g, strings.Repeat(string(rune('a'+g%26)), o.Pad)}), zap.Objects("objs", []c04Obj{{g, ""}, {g, "x"[:0]}}))
 				case "stdlog":
 					std.Print(tok)
+				case "slog":
+					sl.Info(tok, "seq", seq)
+				case "slog-cancelled":
+					// a context that is already cancelled does not affect record processing (log/slog Handler contract)
+					sl.WarnContext(c04Cancelled, tok, slog.Int("seq", seq))
+				case "slog-group":
+					sl.WithGroup("grp").With("a", seq).Error(tok, slog.Group("in", slog.Int("g", g)))
 				case "zapio":
 					_, _ = zw.Write([]byte(tok + "\n"))
 				case "sync":
